@@ -121,6 +121,12 @@ SHAPES = {
     "Function": "var n=0; function f(){ n++; new Function('f()')() } f()",
     "operands": "var n=0; function f(){ n++; return [1,2,3,4,5,6,7,8,[9,[10,f()]]] } f()",
     "arrow": "var n=0; var f = () => { n++; return 1 + f() }; f()",
+    "method": "var n=0; var o = { m: function(){ n++; return this.m() } }; o.m()",
+    "ctor_mutual": "var n=0; function A(){ n++; new B() } function B(){ n++; new A() } new A()",
+    "ctor_method": "var n=0; function P(){ n++; this.go() } P.prototype.go = function(){ n++; new P() }; new P()",
+    "bound_fn": "var n=0; var b; function f(){ n++; b() } b = f.bind(null); b()",
+    "toString": "var n=0; var o={ toString: function(){ n++; return '' + o } }; '' + o",
+    "forEach_mutual": "var n=0; function f(){ n++; [1].forEach(g) } function g(){ n++; [1].map(f) } f()",
 }
 
 
@@ -186,9 +192,10 @@ def driver(case, api):
                                    for _, e in sorted(rec.edges.items())]})
         return {"id": case["id"], "kind": "body", "runs": runs, "src": render_program(case["b"], 2)}
     if case["kind"] == "shape":
-        ctx = api.new_context(memory_limit=case["m"], time_limit=120.0)
+        # tl = 0: no time limit configured; a runaway script is then ended by the step cap and reported as a hang
+        ctx = api.new_context(memory_limit=case["m"], time_limit=(120.0 if case.get("tl", 1) else None))
         rec = Recorder()
-        res = run_with(api, lambda: ctx.eval(SHAPES[case["s"]]), rec)
+        res = run_with(api, lambda: ctx.eval(SHAPES[case["s"]]), rec, cap=(60_000_000 if case.get("tl", 1) else 4_000_000))
         try:
             levels = int(ctx.get("n") or 0)
         except Exception:
@@ -198,7 +205,7 @@ def driver(case, api):
     raise ValueError(case["kind"])
 
 
-def run_with(api, fn, rec):
+def run_with(api, fn, rec, cap=60_000_000):
     orig_reset = api.steps.reset
 
     def reset_and_hook(*a, **k):
@@ -206,7 +213,7 @@ def run_with(api, fn, rec):
         api.steps.user = rec
     api.steps.reset = reset_and_hook
     try:
-        return api.run(fn, wall=90.0, cap=60_000_000)
+        return api.run(fn, wall=90.0, cap=cap)
     finally:
         api.steps.reset = orig_reset
         api.steps.user = None
